@@ -308,8 +308,16 @@ func c19r4(w *World, rr *RuleRun) {
 	if len(ms) == 0 {
 		rr.Oblige(shortFuncName(mqb), "query constructor marshals the message", w.P.Pos(mqb.Pos()), false, "no bencode.Marshal in makeQueryBytes")
 	}
+	// ReadOnly may also be set to the passive flag itself (ReadOnly: s.config.Passive)
+	roIsPassive := false
+	if v := w.literalStoresRegion(mqb, w.P.NamedType("krpc", "Msg"))["ReadOnly"]; v != nil && isPassive(w.TS.Of(v)) {
+		roIsPassive = true
+	}
 	for _, m := range ms {
 		w.Require(rr, m, "marshalled query has ro=true under passive", func(alt *Alt) (bool, string) {
+			if roIsPassive {
+				return true, "m.ReadOnly is the passive flag itself"
+			}
 			if alt.Has("b", false, isPassive) {
 				return true, "not passive"
 			}
